@@ -248,6 +248,134 @@ Proof.
   - apply quiet_step_eff; auto; [apply flush_PWF; auto|apply flush_pend].
   - apply quiet_step_eff; auto; [apply add_ni_inv; auto|].
     unfold add_network_instance. destruct (has_ni r n); reflexivity.
-  - apply quiet_step_eff; auto. apply (teq_inv _ _ (teq_post_hook r)); auto.
-  - apply quiet_step_eff; auto. apply (teq_inv _ _ (teq_res_hook r)); auto.
+  - apply quiet_step_eff; auto.
+  - apply quiet_step_eff; auto.
 Qed.
+
+(* ---- histories ---- *)
+Lemma NoDup_app_intro {A} (a b : list A) :
+  NoDup a -> NoDup b -> (forall x, In x a -> ~ In x b) -> NoDup (a ++ b).
+Proof.
+  induction a as [|y a IH]; cbn; intros Ha Hb Hd; [exact Hb|].
+  inversion Ha; subst. constructor.
+  - intros Hi. apply in_app_or in Hi. destruct Hi as [Hi|Hi]; [tauto|]. apply (Hd y); auto.
+  - apply IH; auto.
+Qed.
+
+Lemma hrun_snoc v s h i : hrun v s (h ++ [i]) = hnext v (hrun v s h) i.
+Proof. unfold hrun. rewrite fold_left_app. reflexivity. Qed.
+Lemma hrun_app v s h1 h2 : hrun v s (h1 ++ h2) = hrun v (hrun v s h1) h2.
+Proof. unfold hrun. apply fold_left_app. Qed.
+Lemma submitted_snoc h i : submitted (h ++ [i]) = submitted h ++ sub_of i.
+Proof. unfold submitted. rewrite flat_map_app. cbn [flat_map]. rewrite app_nil_r. reflexivity. Qed.
+Lemma hrun_ans_prefix v h : forall s, exists rest, h_ans (hrun v s h) = h_ans s ++ rest.
+Proof.
+  induction h as [|i h IH]; intros s; cbn [hrun fold_left].
+  - exists []. rewrite app_nil_r. reflexivity.
+  - destruct (IH (hnext v s i)) as [rest E]. unfold hrun in E. rewrite E. cbn [h_ans hnext].
+    rewrite <- app_assoc. eexists. reflexivity.
+Qed.
+
+Definition I2 d nf (h : list hin) : Prop :=
+  let s := hrun v_fixed (hst0 d nf) h in
+  PWF (h_rib s) /\ incl (held (h_rib s)) (submitted h) /\ incl (h_ans s) (submitted h).
+Definition I3 d nf (h : list hin) : Prop :=
+  let s := hrun v_fixed (hst0 d nf) h in
+  NoDup (h_ans s) /\ (forall id, In id (h_ans s) -> ~ In id (held (h_rib s)))
+  /\ (forall id, In id (h_adds s) -> In id (h_ans s) \/ In id (held (h_rib s)))
+  /\ (forall id, In id (h_dels s) -> In id (h_ans s)).
+
+Lemma I2_all d nf h : Forall good_ord h -> I2 d nf h.
+Proof.
+  induction h as [|i h IH] using rev_ind; intros Hg.
+  - unfold I2. cbn. split; [apply rib0_inv|]. split; intros x [].
+  - apply Forall_app in Hg. destruct Hg as [Hg Hi]. inversion Hi as [|? ? Hi' _]; subst.
+    specialize (IH Hg). unfold I2 in *. rewrite hrun_snoc, submitted_snoc.
+    remember (hrun v_fixed (hst0 d nf) h) as s eqn:Es. cbv zeta in IH. destruct IH as (P & K & A).
+    destruct (hstep_eff (h_rib s) i P Hi') as [E1 E2 E3 E4 E5 E6 E7 E8].
+    cbv zeta. cbn [h_rib h_ans hnext]. split; [exact E1|]. split.
+    + intros id H. apply E2 in H. apply in_or_app. destruct H as [H|H]; [right; exact H|left; apply K; exact H].
+    + intros id H. apply in_app_or in H. apply in_or_app. destruct H as [H|H]; [left; apply A; exact H|].
+      apply E4 in H. destruct H as [H|H]; [right; exact H|left; apply K; exact H].
+Qed.
+
+Lemma I3_all d nf h : Forall good_ord h -> NoDup (submitted h) -> I3 d nf h.
+Proof.
+  induction h as [|i h IH] using rev_ind; intros Hg Hnd.
+  - unfold I3. cbn. split; [constructor|]. split; [intros x []|]. split; intros x [].
+  - pose proof Hg as Hg0. apply Forall_app in Hg. destruct Hg as [Hg Hi]. inversion Hi as [|? ? Hi' _]; subst.
+    rewrite submitted_snoc in Hnd.
+    specialize (IH Hg (NoDup_app_l _ _ Hnd)).
+    pose proof (I2_all d nf h Hg) as H2.
+    unfold I3, I2 in *. rewrite hrun_snoc.
+    remember (hrun v_fixed (hst0 d nf) h) as s eqn:Es. cbv zeta in IH, H2.
+    destruct H2 as (P & K & A). destruct IH as (N1 & N2 & N3 & N4).
+    destruct (hstep_eff (h_rib s) i P Hi') as [E1 E2 E3 E4 E5 E6 E7 E8].
+    assert (Hnew : forall id, In id (sub_of i) -> ~ In id (submitted h)).
+    { intros id H H'. apply (NoDup_app_disjoint _ _ id Hnd H' H). }
+    cbv zeta. cbn [h_rib h_ans h_adds h_dels hnext]. split; [|split; [|split]].
+    + apply NoDup_app_intro; auto. intros x Hx Hx'. apply E4 in Hx'. destruct Hx' as [Hx'|Hx'].
+      * apply (Hnew x Hx'). apply A. exact Hx.
+      * apply (N2 x Hx Hx').
+    + intros id H Hh. apply in_app_or in H. destruct H as [H|H].
+      * apply E2 in Hh. destruct Hh as [Hh|Hh]; [apply (Hnew id Hh); apply A; exact H|apply (N2 id H Hh)].
+      * destruct (E5 id H Hh) as [H1 H2']. apply (Hnew id H1). apply K. exact H2'.
+    + intros id H. apply in_app_or in H. destruct H as [H|H].
+      * destruct (N3 id H) as [H'|H']; [left; apply in_or_app; auto|].
+        destruct (E6 id H') as [H''|H'']; [right; exact H''|left; apply in_or_app; auto].
+      * destruct (E7 id H) as [H'|H']; [right; exact H'|left; apply in_or_app; auto].
+    + intros id H. apply in_app_or in H. apply in_or_app. destruct H as [H|H]; [left; apply N4; exact H|right; apply E8; exact H].
+Qed.
+
+(* ---- the theorems ---- *)
+Theorem answers_nodup d nf h : Forall good_ord h -> NoDup (submitted h) -> NoDup (answers v_fixed d nf h).
+Proof. intros Hg Hn. apply (I3_all d nf h Hg Hn). Qed.
+
+Theorem answers_are_submitted d nf h1 h2 : Forall good_ord (h1 ++ h2) ->
+  (exists rest, answers v_fixed d nf (h1 ++ h2) = answers v_fixed d nf h1 ++ rest)
+  /\ submitted (h1 ++ h2) = submitted h1 ++ submitted h2
+  /\ incl (answers v_fixed d nf h1) (submitted h1).
+Proof.
+  intros Hg. apply Forall_app in Hg. destruct Hg as [Hg _]. split; [|split].
+  - unfold answers. rewrite hrun_app. apply hrun_ans_prefix.
+  - unfold submitted. apply flat_map_app.
+  - apply (I2_all d nf h1 Hg).
+Qed.
+
+Theorem answered_or_held d nf h : Forall good_ord h -> NoDup (submitted h) ->
+  (forall id, In id (accepted_adds v_fixed d nf h) ->
+     In id (answers v_fixed d nf h) \/ In id (held (final v_fixed d nf h)))
+  /\ (forall id, In id (answers v_fixed d nf h) -> ~ In id (held (final v_fixed d nf h)))
+  /\ (forall id, In id (accepted_dels v_fixed d nf h) -> In id (answers v_fixed d nf h)).
+Proof.
+  intros Hg Hn. destruct (I3_all d nf h Hg Hn) as (_ & N2 & N3 & N4). split; [exact N3|]. split; [exact N2|exact N4].
+Qed.
+
+(* the final state of a history is reachable in the sense of Closed.v: whatever is still held is
+   not resolvable and could not be installed *)
+Lemma final_reach d nf h : Forall good_ord h -> rib_reach v_fixed (rib0 d nf) (final v_fixed d nf h).
+Proof.
+  induction h as [|i h IH] using rev_ind; intros Hg; [apply reach_refl|].
+  apply Forall_app in Hg. destruct Hg as [Hg Hi]. inversion Hi as [|? ? Hi' _]; subst.
+  unfold final in *. rewrite hrun_snoc. cbn [h_rib hnext]. eapply reach_step; [apply IH; exact Hg|].
+  destruct i as [ord n o|n o|l|n| |]; cbn [hstep fst good_ord] in *; constructor; auto.
+Qed.
+Theorem held_is_legitimate d nf h : Forall good_ord h ->
+  (forall id n o, nget id (pend (final v_fixed d nf h)) = Some (n, o) -> resolvable (final v_fixed d nf h) n o = false)
+  /\ quiescent v_fixed (final v_fixed d nf h).
+Proof. intros Hg. destruct (held_invariants d nf _ (final_reach d nf h Hg)) as (_ & _ & U & Q). split; [exact U|exact Q]. Qed.
+
+(* ---- example ---- *)
+Lemma ex_hist_good : Forall good_ord ex_hist.
+Proof. unfold ex_hist. repeat constructor; exact idord_perm. Qed.
+Lemma ex_hist_values :
+  submitted ex_hist = [10; 11; 12; 1; 2; 13; 3; 4; 5]
+  /\ held (final v_fixed 1 false (firstn 7 ex_hist)) = [3; 2; 1]
+  /\ (let o8 := snd (hstep v_fixed (final v_fixed 1 false (firstn 7 ex_hist))
+                           (JAdd idord 1 (mk_op 4 1 ADD None (ENh 7 (Some (mk_nh [])))))) in
+      oks o8 = [4; 3; 1] /\ fails o8 = [2])
+  /\ answers v_fixed 1 false ex_hist = [10; 11; 12; 13; 4; 3; 1; 2]
+  /\ held (final v_fixed 1 false ex_hist) = []
+  /\ accepted_adds v_fixed 1 false ex_hist = [10; 11; 12; 1; 2; 3; 4]
+  /\ accepted_dels v_fixed 1 false ex_hist = [13].
+Proof. vm_compute. repeat split. Qed.
